@@ -9,6 +9,19 @@ use std::time::Duration;
 use crate::docs::SIM_TID;
 use crate::prng::Rng;
 
+thread_local! {
+    static CUR: std::cell::RefCell<Option<Arc<Sched>>> = const { std::cell::RefCell::new(None) };
+}
+
+/// Scheduling point inside the engine (hook `verif::set_engine_seam`): every expression node the
+/// solver starts to evaluate on a simulated thread.
+fn engine_hook() {
+    let s = CUR.with(|c| c.borrow().clone());
+    if let Some(s) = s {
+        s.yield_point();
+    }
+}
+
 #[derive(Clone, Debug)]
 pub enum Strategy {
     /// uniform choice among runnable threads at every seam point
@@ -148,7 +161,7 @@ impl Sched {
     }
 
     /// Runs the closures as simulated threads 1..=n, returns once all have finished.
-    pub fn run(self: &Arc<Self>, bodies: Vec<Box<dyn FnOnce() + Send>>, stack: usize) {
+    pub fn run(self: &Arc<Self>, bodies: Vec<Box<dyn FnOnce() + Send>>, stack: usize, engine_seams: bool) {
         let n = bodies.len();
         {
             let mut g = self.m.lock().unwrap();
@@ -166,11 +179,17 @@ impl Sched {
                 .stack_size(stack)
                 .spawn(move || {
                     SIM_TID.with(|t| t.set(me));
+                    if engine_seams {
+                        CUR.with(|c| *c.borrow_mut() = Some(s.clone()));
+                        tau_engine::verif::set_engine_seam(Some(engine_hook));
+                    }
                     {
                         let g = s.m.lock().unwrap();
                         let _g = s.wait_turn(g, me);
                     }
                     let r = std::panic::catch_unwind(std::panic::AssertUnwindSafe(body));
+                    tau_engine::verif::set_engine_seam(None);
+                    CUR.with(|c| *c.borrow_mut() = None);
                     let mut g = s.m.lock().unwrap();
                     g.alive[me] = false;
                     if g.alive.iter().any(|a| *a) {
